@@ -45,7 +45,7 @@ ASSUMPTIONS = ["doc/mmb.5 is the specification of the MMB layout (the property s
 def rule_fileview_bound(prog, fixture=False):
     r0 = c17.rule_bounds(prog, fixture=True)
     r = RuleResult("R-C04-1", "FileView::read_block forwards only sectors below total_, and an unformatted view "
-                   "fails before any offset arithmetic", floor=0 if fixture else 2)
+                   "fails before any offset arithmetic", floor=0 if fixture else 1)
     for i in r0.instances:
         if "FileView::read_block" in i.key:
             r.add(i.key, i.loc, i.ok, i.detail)
